@@ -251,10 +251,14 @@ class BosonicBackend(BaseBosonic):
 
                     # If a new mode is added in the program context, then add it here
                     elif isinstance(cmd.op, _New_modes):
-                        cmd.op.apply(cmd.reg, self)
+                        # one New command creates all of its modes at once: apply it only
+                        # once, and start every new mode in the vacuum state
+                        if reg == new_labels[0]:
+                            cmd.op.apply(cmd.reg, self)
                         init_weights.append([0])
                         init_means.append([0])
                         init_covs.append([0])
+                        weights, means, covs = np.array([1], dtype=complex), vac_means, vac_covs
 
                     # The rest of the preparations are gaussian.
                     # TODO: initialize with Gaussian |vacuum> state
